@@ -13,7 +13,7 @@ struct H {
     std::unique_ptr<photon::channel<long>> ch;
     long cap = 0;
     std::vector<long> seq;                       // next sequence number per sender actor
-    std::map<long, int> sent_ok, sent_failed;    // value -> count
+    std::map<long, int> sent_ok, sent_failed;    // value -> count (sent_failed: failed by TIMEOUT on an open channel only)
     std::map<long, int> received;
     std::vector<std::map<int, long>> last_seen;  // per receiver: sender -> last seq
     bool close_called = false, close_returned = false;
@@ -64,8 +64,12 @@ struct H {
                 // delivered-before-return is legal for an unbuffered hand-off
                 if (closed_before) ctl.violation("send returned true on a channel that had been closed before the call");
             } else {
-                sent_failed[v]++;
-                if (received.count(v)) ctl.violation("value " + std::to_string(v) + " was delivered although its send() returned false");
+                // A send that fails because of close() may leave its value in the unbuffered hand-off slot, where a
+                // later recv still finds it; the statement does not forbid that, so only timeouts on an open channel count.
+                if (!close_called) {
+                    sent_failed[v]++;
+                    if (received.count(v)) ctl.violation("value " + std::to_string(v) + " was delivered although its send() timed out and returned false");
+                }
                 if (r[0] == OP_SEND) {
                     bool timed_out = tmo >= 0 && photon::now >= dl;
                     if (!close_called && !timed_out)
@@ -225,5 +229,6 @@ int main(int argc, char** argv) {
     h.run = run_case;
     h.desc = [](const Case& c) { return describe_common(c, opname); };
     h.fork_per_case = true;
+    h.persistent_child = true;     // a child serves cases until one ends abnormally (finish_now), then it is replaced
     return vf::pbt_main(argc, argv, h);
 }
